@@ -1,6 +1,7 @@
 import Ivy.Drv.Avl
 import Ivy.Drv.AvlPtr
 import Ivy.Drv.Tls
+import Ivy.Drv.ListPtr
 import Ivy.Drv.Heap
 import Ivy.Drv.Pump
 import Ivy.Drv.Loop
@@ -18,6 +19,7 @@ def main (args : List String) : IO UInt32 := do
   | ["avl"] => Ivy.Drv.Avl.run; return 0
   | ["avlptr"] => Ivy.Drv.AvlPtr.runQuiet; return 0
   | ["tls"] => Ivy.Drv.Tls.run; return 0
+  | ["listptr"] => Ivy.Drv.ListPtr.run; return 0
   | ["heap"] => Ivy.Drv.Heap.run; return 0
   | ["pump"] => Ivy.Drv.Pump.run; return 0
   | ["loop"] => Ivy.Drv.Loop.run; return 0
